@@ -136,6 +136,9 @@ def A_calls():
     add('f.combinations_wr', lambda X: pt.combinations_with_replacement(X, 2))
     add('apply_static_mods', lambda X: pt.apply_static_mods(X, {'P': ['Oxidation']}))
     add('apply_variable_mods', lambda X: pt.apply_variable_mods(X, {'E': [['Phospho']]}, 1))
+    add('apply_variable_mods-none-allowed-annot', lambda X: pt.apply_variable_mods(X, {'E': [['Phospho']]}, 0, return_type='annotation'))
+    add('apply_variable_mods-annot', lambda X: pt.apply_variable_mods(X, {'E': [['Phospho']]}, 1, nterm_mods=['Acetyl'], return_type='annotation'))
+    add('apply_static_mods-no-match-annot', lambda X: pt.apply_static_mods(X, {'W': ['Oxidation']}, return_type='annotation'))
     add('count_aa', lambda X: pt.count_aa(X))
     add('is_sequence_valid', lambda X: pt.is_sequence_valid(X))
     add('serialize', lambda X: pt.serialize(X))
@@ -193,6 +196,9 @@ def other_calls():
               lambda s, d: pt.apply_static_mods(s, d)))
     c.append(('apply_variable_mods-dict', lambda: ['PEPTIDE', {'P': [['Oxidation']], 'E': [[1.5]]}],
               lambda s, d: pt.apply_variable_mods(s, d, 2)))
+    c.append(('add_mods-dict', lambda: ['PEPTIDE', {'nterm': 'Acetyl', 2: 1.5, 'cterm': [Mod('Amidated', 1)], 'intervals': [(0, 2, False, [1.0])],
+                                                   'labile': ['Glycan:Hex'], 'isotope': '13C'}],
+              lambda s, d: pt.add_mods(s, d)))
     c.append(('digest-rules', lambda: ['PEPKTIDERK', ['lys-c', 'arg-c']], lambda s, r: pt.digest(s, r)))
     c.append(('merge_isotopic_distributions', lambda: [[(100.0, 1.0), (101.0, 0.5)], [(100.0, 0.25)]],
               lambda a, b: pt.merge_isotopic_distributions(a, b)))
